@@ -346,6 +346,18 @@ def build_tree(node, ctx, shared=None):
                 inv_scale=1.0 / ctx["A_scale"],
                 xi=ctx["xi"],
             )
+        elif k == "loop":
+            from tdgl.sources import CurrentLoop
+
+            xi = ctx["xi"]
+            obj = CurrentLoop(
+                current=node["I"],
+                radius=node["R"] * xi,
+                center=tuple(c * xi for c in node["c"]),
+                current_units=ctx["current_units"],
+                field_units=ctx["field_units"],
+                length_units=ctx["length_units"],
+            )
         elif k == "wave":
             obj = tdgl.Parameter(wave_field, time_dependent=True, a=node["a"], kx=node["kx"], ky=node["ky"], w=node["w"])
         elif k == "scalar2d":
@@ -404,6 +416,14 @@ def eval_tree(node, ctx, x, y, z, t):
             return int(node["v"]) if node.get("int") else float(node["v"])
         if k == "gauge":
             return gauge_grad(x, y, z, c=tuple(node.get("c", (0, 0))), q=tuple(node.get("q", (0, 0, 0))), inv_scale=1.0 / ctx["A_scale"], xi=ctx["xi"])
+        if k == "loop":
+            from tdgl.sources.loop import loop_vector_potential
+
+            xi = ctx["xi"]
+            return loop_vector_potential(
+                np.atleast_1d(x), np.atleast_1d(y), np.atleast_1d(z), current=node["I"], radius=node["R"] * xi, center=tuple(c * xi for c in node["c"]),
+                current_units=ctx["current_units"], field_units=ctx["field_units"], length_units=ctx["length_units"],
+            )
         if k == "wave":
             return wave_field(x, y, z, t=t, a=node["a"], kx=node["kx"], ky=node["ky"], w=node["w"])
         if k == "scalar2d":
@@ -450,6 +470,8 @@ def field_to_tree(field):
         tree = {"op": "*", "l": {"leaf": "pw", "times": field["times"], "values": field["values"]}, "r": {"leaf": "const_field", "B": field["B"]}}
     elif k == "sin":
         tree = {"op": "*", "l": {"leaf": "sin", "omega": field["omega"], "phase": field.get("phase", 0.0), "offset": field.get("offset", 0.0)}, "r": {"leaf": "const_field", "B": field["B"]}}
+    elif k == "loop":
+        tree = {"leaf": "loop", "I": field["I"], "R": field["R"], "c": field["c"]}
     elif k == "tree":
         tree = field["tree"]
     else:
@@ -480,6 +502,7 @@ def make_ctx(dev_spec, opt_spec):
         "length_units": lu,
         "A_scale": sc.A_scale(fu, lu),
         "xi": dev_spec["layer"]["xi"],
+        "current_units": opt_spec.get("current_units", "uA"),
     }
 
 
